@@ -18,6 +18,11 @@ from .utilities import TrackedArray
 
 class CellVariable:
 
+    # Let `numpy_scalar <op> CellVariable` and `ndarray <op> CellVariable`
+    # defer to the reflected operators below (without this, numpy converts
+    # the CellVariable through __array__ and returns a bare ndarray).
+    __array_priority__ = 1000
+
     @overload
     def __init__(self, mesh_struct: MeshStructure, cell_value: np.ndarray,
                  BC: BoundaryConditionsBase):
